@@ -346,6 +346,16 @@ Definition check_dup (c : dup_case) : N :=
   let occ := N.of_nat (length (filter (fun b => existsb (fun t => existsb (tx_eqb t) ops) b) chain)) in
   if N.eqb ver 0 && N.leb oks 1 && N.eqb occ oks then V_OK else V_VIOLATION.
 
+(* ------------------------------------------------------------ one commit, every transaction kind *)
+(* (K, commit result, dump before, the workspace's operations, dump after, 0 iff the header's state root equals the
+   root of a store that restores the pre-commit image and replays the block's transactions in order, verify code) *)
+Definition croot_case := (N * N * list (option bytes) * list tx * list (option bytes) * N * N)%type.
+Definition check_croot (c : croot_case) : N :=
+  let '(K, r, pre, l, post, rootdiff, ver) := c in
+  if negb (N.eqb r 0) then (if dump_eqb pre post && N.eqb ver 0 then V_OK else V_VIOLATION)
+  else if N.eqb ver 0 && N.eqb rootdiff 0 && dump_eqb post (apply_dump K pre l) then V_OK else V_VIOLATION.
+Definition check_croot1 (c : N * croot_case) : N := check_croot (snd c).
+
 (* ------------------------------------------------------------ replicas *)
 (* a block offered to both replicas: (txs, root_good, raw description of the rest) *)
 Definition rblock := (list tx * bool * rawdesc)%type.
@@ -384,6 +394,9 @@ Definition check_replay (c : replay_case) : N :=
   let '(K, gts, shared, bs, r1, r2, d1, d2, dr) := c in
   let ra := roots_agree false r1 r2 in
   if negb (N.eqb (fst dr) (snd dr)) then V_VIOLATION else
+  (* a block the harness gave a false state root is accepted by NO replica *)
+  if negb (forallb (fun br => snd (fst (fst br)) || (negb (N.eqb (fst (fst (snd br))) 0) && negb (N.eqb (fst (snd (snd br))) 0)))
+                   (combine bs (combine r1 r2))) then V_VIOLATION else
   if negb (list_eqb N.eqb (map fst r1) (map fst r2) && dump_eqb d1 d2 && N.eqb (N.of_nat (length r1)) (N.of_nat (length r2))) then V_VIOLATION
   else if N.eqb ra 2 then V_VIOLATION
   else if N.eqb ra 1 then (if shared then V_KNOWN K_ROOT else V_VIOLATION)
